@@ -198,12 +198,12 @@ class VisGen:
                 params.insert(rng.randint(0, len(params)), form)
         return ret, params, refs, excl, simple
 
-    def fmt_params(self, tag, params, owner_name, c, vis, amb, excl, ctx, defaults=True):
+    def fmt_params(self, tag, params, owner_name, c, vis, amb, excl, ctx, defaults=True, refs=()):
         out = []
         seen_default = False
         for i, t in enumerate(params):
             pn = self.nm(tag, "a")
-            self.add(pn, tag, "param", c, vis, amb, excl, ctx=ctx, of=owner_name)
+            self.add(pn, tag, "param", c, vis, amb, excl, refs=refs, ctx=ctx, of=owner_name)
             s = f"{t} {pn}"
             if defaults and (seen_default or (i == len(params) - 1 and self.rng.random() < 0.15)) and t in ATOMS:
                 s += " = 1"
@@ -246,11 +246,16 @@ class VisGen:
         # a template (and what is nested in it) can only be named through its injected class name
         q = name if template else c.qual + name
         bases = ""
-        cands = [t for t in vtypes if t["kind"] == "class" and t["access"] is None and not t.get("tmpl")]
+        # (a class with a non-public base hides that base's name from its own derived classes: never derive from it)
+        cands = [t for t in vtypes if t["kind"] == "class" and t["access"] is None and not t.get("tmpl")
+                 and not t.get("nonpub_base")]
         base_refs = []
+        nonpub_base = False
         if cands and rng.random() < 0.25 and not template:
             b = rng.choice(cands)
-            bases = " : " + rng.choice(["public ", "public ", "protected ", "private ", "virtual public "]) + b["q"]
+            how = rng.choice(["public ", "public ", "protected ", "private ", "virtual public "])
+            nonpub_base = how in ("protected ", "private ")
+            bases = " : " + how + b["q"]
             base_refs.append(b["name"])
         rec = self.add(name, tag, kind, c.sub(forced=forced), vis, amb_o and not global_scope, excl, refs=base_refs,
                        ctx=(st_outer.ctx or c.cctx), region=bool(self.region_open), q=q, member_vis=[],
@@ -265,7 +270,7 @@ class VisGen:
                       cctx=(st_outer.ctx or c.cctx or ("gregion" if self.region_open else "")), selfinv=involved)
         nested = self.gen_members(inner, key, name, q, L, ind + "  ", vtypes, depth, rec)
         L.append(f"{ind}}};")
-        t = dict(name=name, q=q, kind="class", access=None, involved=involved, tmpl=template,
+        t = dict(name=name, q=q, kind="class", access=None, involved=involved, tmpl=template, nonpub_base=nonpub_base,
                  nested=[x for x in nested if x["access"] is None and not template])
         return t, rec
 
@@ -356,7 +361,7 @@ class VisGen:
         if depth < 2:
             kinds += ["nclass"] * 3
         if privs:
-            kinds += ["privtype"] * 4 + ["privdm"]
+            kinds += ["privtype"] * 9 + ["privdm"] * 2
         if self.p["nfile"]:
             kinds += ["ignm"] * 2
         k = rng.choice(kinds)
@@ -385,7 +390,7 @@ class VisGen:
             name = self.nm(tag, "sm" if k == "smethod" else "m")
             kind = "smethod" if k == "smethod" else "method"
             self.add(name, tag, kind, c, vis, amb, excl, refs, simple and not excl, ctx)
-            ps = self.fmt_params(tag, params, name, c, vis, amb, excl, ctx, defaults=(k != "tmplm"))
+            ps = self.fmt_params(tag, params, name, c, vis, amb, excl, ctx, defaults=(k != "tmplm"), refs=refs)
             pre = ""
             post = ""
             if k == "smethod":
@@ -560,7 +565,7 @@ class VisGen:
             tag = self.tag_for(c, vis, excl) if judge else "unspec"
             name = self.nm(tag, "f")
             self.add(name, tag, "func", c, vis, amb, excl, refs, simple and not excl and judge, ctx, judge=judge)
-            ps = self.fmt_params(tag, params, name, c, vis, amb, excl, ctx, defaults=(k != "tmplf"))
+            ps = self.fmt_params(tag, params, name, c, vis, amb, excl, ctx, defaults=(k != "tmplf"), refs=refs)
             if not judge:
                 for p_ in [e for e in self.ents.values() if e.get("of") == name]:
                     p_["judge"] = False
